@@ -1223,6 +1223,16 @@ func runC02(args []string) error {
 				Kind  string   `json:"kind"`
 				Input c02Input `json:"input"`
 			}
+			var kk struct {
+				Kind  string       `json:"kind"`
+				Input c02BackendIn `json:"input"`
+			}
+			if json.Unmarshal(c, &kk) == nil && kk.Kind == "backend" {
+				if err := c02RunBackend(co, kk.Input); err != nil {
+					return err
+				}
+				continue
+			}
 			if err := json.Unmarshal(c, &x); err != nil {
 				return err
 			}
@@ -1311,6 +1321,14 @@ func runC02(args []string) error {
 		for i := 0; i < n; i++ {
 			if err := c02RunCase(co, "inblock", c02GenInBlock(r, i)); err != nil {
 				return fmt.Errorf("flush inside a block addition %d: %w", i, err)
+			}
+		}
+	}
+	// ONE change set inside the persistent backend: every durable state while PutChangeSet runs, the error path
+	if want("backend") {
+		for _, in := range c02GenBackend(r, cf.tier == "thorough") {
+			if err := c02RunBackend(co, in); err != nil {
+				return fmt.Errorf("backend %s: %w", in.Backend, err)
 			}
 		}
 	}
